@@ -900,6 +900,9 @@ class _CircTable(Contract):
         st.n = e.int('n_lines')
         e.assume(st.n >= 0)
         st.args = [OpaqueStr(['table.txt']), self.V3]
+        from .tables import first_loop_kind
+        if first_loop_kind(I, self.path, self.qualname) != 'for':
+            raise Unsupported('the reader is not written as `for line in handle` (this contract follows that form)')
         self._cur = st
         return st
 
